@@ -279,6 +279,22 @@ structure Want where
 
 def isKey (k : String) : Str → Bool := fun s => s = k.toList
 
+/-- the transcript-level features of one coding transcript: (mRNA in the eukaryotic flavour,) CDS -/
+def wantTx (c : CollIn) (tag : Nat) (pseudo : Bool) (t : TxIn) : Option (List Want) :=
+  match t.cdsIn c.genome with
+  | some cd =>
+    match cd.startPartial c.table, cd.endPartial with
+    | some si, some ei =>
+      let cdsW : Want := ⟨isKey "CDS", [t.strand], cd.blocks, si, ei, pseudo, some (cd.frame + 1), tag⟩
+      let mrnaW : Want := ⟨isKey "mRNA", [t.strand], t.exons, si, ei, pseudo, none, tag⟩
+      some (if c.prokaryotic then [cdsW] else [mrnaW, cdsW])
+    | _, _ => none
+  | none => none
+
+/-- the RNA feature of one transcript of a non-coding gene -/
+def wantRna (gtype : Option Str) (tag : Nat) (t : TxIn) : Want :=
+  ⟨rnaKeyOk gtype, [t.strand], t.exons, false, false, false, none, tag⟩
+
 /-- the features of gene number `i` (1-based), in file order; `none` = the gene is outside what C17 claims
     (mixed coding / non-coding isoforms, unreadable letters) -/
 def wantGene (c : CollIn) (tag : Nat) (g : GeneIn) : Option (List Want) :=
@@ -286,21 +302,11 @@ def wantGene (c : CollIn) (tag : Nat) (g : GeneIn) : Option (List Want) :=
   | some span, some ps =>
     if g.txs.isEmpty then none
     else if g.allCoding then
-      let pseudo := ps
-      let perTx := mapOpt (fun t =>
-        match t.cdsIn c.genome with
-        | some cd =>
-          match cd.startPartial c.table, cd.endPartial with
-          | some si, some ei =>
-            let cdsW : Want := ⟨isKey "CDS", [t.strand], cd.blocks, si, ei, pseudo, some (cd.frame + 1), tag⟩
-            let mrnaW : Want := ⟨isKey "mRNA", [t.strand], t.exons, si, ei, pseudo, none, tag⟩
-            some (if c.prokaryotic then [cdsW] else [mrnaW, cdsW])
-          | _, _ => none
-        | none => none) g.txs
-      perTx.map (fun l => ⟨isKey "gene", g.majorityStrands, [span], false, false, pseudo, none, tag⟩ :: l.flatten)
+      (mapOpt (wantTx c tag ps) g.txs).map
+        (fun l => ⟨isKey "gene", g.majorityStrands, [span], false, false, ps, none, tag⟩ :: l.flatten)
     else if g.noneCoding then
       some (⟨isKey "gene", g.majorityStrands, [span], false, false, false, none, tag⟩ ::
-        g.txs.map (fun t => ⟨rnaKeyOk g.gtype, [t.strand], t.exons, false, false, false, none, tag⟩))
+        g.txs.map (wantRna g.gtype tag))
     else none
   | _, _ => none
 
@@ -380,5 +386,17 @@ def okFile (c : CollIn) (secs : List Section) : Bool :=
   match secs, wantAll c 1 c.genes with
   | [s], some ws => s.seqId == c.seqName && zipAll (okFeat c.tagPrefix) ws s.feats
   | _, _ => false
+
+/-- several collections exported in ONE call: one section per collection, in order, each under a header naming its
+    sequence; the gene numbering (hence the locus tags) runs on from one collection to the next -/
+def okFilesFrom : Nat → List CollIn → List Section → Bool
+  | _, [], [] => true
+  | i, c :: cs, s :: ss =>
+    (match wantAll c i c.genes with
+     | some ws => s.seqId == c.seqName && zipAll (okFeat c.tagPrefix) ws s.feats
+     | none => false) && okFilesFrom (i + c.genes.length) cs ss
+  | _, _, _ => false
+
+def okFiles (cs : List CollIn) (secs : List Section) : Bool := okFilesFrom 1 cs secs
 
 end BioCantor.Spec.Tbl
